@@ -96,7 +96,13 @@ def ptr_history(rnd, first_id):
     T = cs.PS
     base = {"type": t, "mode": mode, "consts": {"_": 0}}
     events, rid = [], first_id
-    if rnd.random() < 0.1:
+    if t["k"] == "union" and rnd.random() < 0.3:
+        # built from a value: the pointer member gets an address, but there is no stream it could point into
+        v = T(raw=rnd.choice([1, 2, 0x41, (1 << (8 * mode["ptr"])) - 1]))
+        events.append(dict(base, id=rid, ev="Built", input=[], v=A.project(v, t), obs={}))
+        rid += 1
+        stream, data = None, b""
+    elif rnd.random() < 0.1:
         v = T()
         events.append(dict(base, id=rid, ev="Default", input=[], obs={}))
         rid += 1
